@@ -2,13 +2,16 @@
   C06 — "never raises" facts, stated for the model.  Property theorems only; the work is in
   Mwp/Lemmas/SyntaxThmsVars.lean (walkers are total), Mwp/Lemmas/DeltaGraphD.lean (the delta
   graph is total under its invariant), Mwp/Props/C04.lean (choices), Mwp/Lemmas/RefineLoopFree.lean
-  (loop-free analysis) and Mwp/Lemmas/WriteSet.lean (corrections under the graph invariant).
+  (loop-free analysis), Mwp/Lemmas/WriteSet.lean (corrections under the graph invariant) and
+  Mwp/Lemmas/FixTerm*.lean (the `while True` of the fixpoint stops).
 -/
 import Mwp.Lemmas.SyntaxThmsVars
 import Mwp.Lemmas.DeltaGraph
 import Mwp.Props.C04
 import Mwp.Lemmas.RefineLoopFree
 import Mwp.Lemmas.WriteSet
+import Mwp.Lemmas.FixTerm
+import Mwp.Lemmas.FuncTotal
 namespace Mwp.Props.C06
 open Mwp
 
@@ -89,5 +92,44 @@ example : ∃ r' g', Relation.loopCorrection ⟨["x", "y"],
       .ok (r', g') ∧ DG.GInv g' :=
   loop_correction_never_raises _ "y" (by decide) [] DG.GInv.nil
 example : Relation.loopCorrection ⟨["x"], [[[⟨.m, []⟩]]]⟩ "z" [] = .error "ValueError" := by rfl
+
+/-- TERMINATION of the only unbounded loop of the relation algebra: the `while True` of
+    `Relation.fixpoint` stops for every well-formed relation -- whatever its size, its polynomials
+    and the number of derivation indices -- after at most `4n² + 1` rounds (`n` variables); the
+    result does not depend on how much further fuel the model is given. -/
+theorem fixpoint_loop_stops (r : Relation) (h : r.WF) :
+    ∀ fuel, 4 * r.vars.length * r.vars.length + 1 ≤ fuel → ∃ f k,
+      Relation.fixpointAux r fuel
+        (Relation.new r.vars (some (Matrix.identity r.vars.length)))
+        (Relation.new r.vars (some (Matrix.identity r.vars.length))) 0 = .ok (f, k) ∧
+      k ≤ 4 * r.vars.length * r.vars.length + 1 :=
+  Relation.fixpointAux_terminates r h
+
+theorem fixpoint_fuel_irrelevant (r fix cur : Relation) (k fuel fuel' : Nat) (f : Relation) (n : Nat)
+    (h : Relation.fixpointAux r fuel fix cur k = .ok (f, n)) (hle : fuel ≤ fuel') :
+    Relation.fixpointAux r fuel' fix cur k = .ok (f, n) :=
+  Relation.fixpointAux_fuel_mono r fix cur k fuel fuel' f n h hle
+
+/-- hence the model's fuelled `fixpoint` never answers "Diverged" -/
+theorem fixpoint_never_diverges (r : Relation) (h : r.WF) : ∃ f, Relation.fixpoint r = .ok f :=
+  Relation.fixpoint_terminates r h
+
+/-- **The analysis never raises on a supported function** -- any nesting of branches, while,
+    do-while and counted for loops, any size, both modes (early exit and run to completion):
+    none of the model's `Except.error` branches ("Diverged", IndexError, KeyError, ValueError of the
+    corrections, of the delta graph, of `Choices.generate`, of the ∞-flow report) is reachable.
+    `FuncOk` is the decidable side condition of C01/C02 (non-empty names, loop-guard names fresh,
+    the calculus reading exists and mentions only collected variables). -/
+theorem supported_function_never_raises (node : Node) (stop : Bool) (hok : Refine.FuncOk node = true)
+    (cmd : Spec.Cmd) (hd : Spec.desugarFunc node = some cmd) : ∃ r, Analysis.func node stop = .ok r :=
+  func_total node stop hok cmd hd
+
+/-- statement level: any supported statement, from any delta index, with any delta graph that
+    satisfies the graph invariant (kept by the analysis) -/
+theorem supported_statement_never_raises (node : Node) (cmd : Spec.Cmd) (hd : Spec.desugar node = some cmd)
+    (hnames : Refine.namesOkA node = true) (hfresh : Refine.guardsFresh cmd = true)
+    (q : Bool) (idx : Nat) (dg : DG.Graph) (hg : DG.GInv dg) :
+    ∃ out, Analysis.compute q idx dg node = .ok out ∧ DG.GInv out.dg :=
+  compute_total node cmd hd hnames hfresh q idx dg hg
 
 end Mwp.Props.C06
